@@ -126,30 +126,57 @@ def _io_chunks(io_path, wd):
     return paths
 
 
-def expand_images(io_path, wd, max_exh=10, nrandom=48, timeout=2400, stats=None):
+EXH_LADDER = [(10, 48), (8, 32), (6, 24), (4, 12), (2, 6)]
+
+
+def expand_images(io_path, wd, max_exh=10, nrandom=48, timeout=2400, stats=None, want_per_run=None):
     """TLC enumerates the crash images of every recorded run (spec/DiskTrace.tla); long recordings are validated in
-    chunks of whole runs."""
-    cfg = cfg_text(constants={"TraceFile": "io.ndjson", "MaxExh": max_exh, "NRandom": nrandom},
-                   invariants=["Emit"], post="Consumed")
+    chunks of whole runs. The images are streamed; when a chunk yields far more images than will be sampled from it
+    (a change that leaves many more chunks un-fsynced makes the subset enumeration explode), TLC is stopped and the chunk
+    is redone with a smaller exhaustive threshold / fewer random subsets (the structured subsets - none, all, singletons,
+    all-but-one - are always there)."""
     by = {}
     parts = _io_chunks(io_path, wd)
+    ladder = [(max_exh, nrandom)] + [x for x in EXH_LADDER if x[0] < max_exh]
     for part in parts:
-        r = tlc("DiskTrace", cfg, files={"io.ndjson": part}, timeout=timeout)
-        if r.error or r.violated:
-            raise Inconclusive("DiskTrace failed: %s %s\n%s" % (r.error, r.violated, r.errctx or r.out[-3000:]))
-        imgs = tlc_payloads(r, "IMG")
-        for im in imgs:
-            for k in ("keep", "len"):
-                if isinstance(im[k], list):   # ToJson of an empty function
-                    im[k] = {}
-            by.setdefault(im["path"], []).append(im)
+        nruns = 0
+        with open(part) as f:
+            for ln in f:
+                if ln.startswith('{"ev":"reset"'):
+                    nruns += 1
+        budget = max(150000, 6 * (want_per_run or 200) * max(1, nruns))
+        for step, (mx, nr) in enumerate(ladder):
+            local, cnt = {}, [0]
+            last = step == len(ladder) - 1
+
+            def on_payload(ln):
+                im = parse_payload(ln, "IMG")
+                if im is None:
+                    return True
+                for k in ("keep", "len"):
+                    if isinstance(im[k], list):   # ToJson of an empty function
+                        im[k] = {}
+                local.setdefault(im["path"], []).append(im)
+                cnt[0] += 1
+                return last or cnt[0] <= budget
+
+            cfg = cfg_text(constants={"TraceFile": "io.ndjson", "MaxExh": mx, "NRandom": nr, "ProdCap": 20000}, invariants=["Emit"], post="Consumed")
+            r = tlc("DiskTrace", cfg, files={"io.ndjson": part}, timeout=timeout, on_payload=on_payload)
+            if r.error == "aborted":
+                if stats is not None:
+                    stats["disk_exh_lowered"] = stats.get("disk_exh_lowered", 0) + 1
+                continue
+            if r.error or r.violated:
+                raise Inconclusive("DiskTrace failed: %s %s\n%s" % (r.error, r.violated, r.errctx or r.out[-3000:]))
+            break
+        for k, v in local.items():
+            by.setdefault(k, []).extend(v)
         if stats is not None:
             stats["disk_states"] = stats.get("disk_states", 0) + r.generated
             stats["disk_distinct"] = stats.get("disk_distinct", 0) + r.distinct
             stats["disk_wall"] = stats.get("disk_wall", 0) + r.wall
-            stats["images"] = stats.get("images", 0) + len(imgs)
+            stats["images"] = stats.get("images", 0) + cnt[0]
             stats["disk_chunks"] = stats.get("disk_chunks", 0) + 1
-        r.out = r.lines = None
         if part != io_path:
             os.unlink(part)
     return by
@@ -474,7 +501,8 @@ class Engine:
                                        "tag": None, "inflight": "none", "ncrash": 0,
                                        "event": {"msg": "%s %s" % (v["event"].get("call"), v["event"].get("name"))},
                                        "props": IO_ATTR.get(v["clause"], ["C01"]), "replay_job": prune_job(job, None) if job else {}})
-            by = expand_images(io, self.wd, max_exh=max_exh, nrandom=nrandom, stats=self.stats)
+            by = expand_images(io, self.wd, max_exh=max_exh, nrandom=nrandom, stats=self.stats,
+                               want_per_run=per_run[min(lvl, len(per_run) - 1)])
             t2 = time.time()
             en = expand_next if isinstance(expand_next, (list, tuple)) else [expand_next]
             n = attach_forks(jobs, by, self.rng, per_run[min(lvl, len(per_run) - 1)],
